@@ -69,29 +69,35 @@ theorem fresh_key_as_source :
   decide
 
 /-- The renewal automaton applies exactly the source's rules (all states, not probes): the timer is
-armed for `min(CAP, renewAt − now)`; a wake before the renewal time only re-arms; a failed fetch arms
-`RETRY` and leaves the SVID; `renewalTime` is the source's formula. -/
+armed for `min(CAP, renewAt − now)`; a wake before the renewal time only re-arms; a wake at/after it
+issues the request; a failed renewal arms `RETRY` from the moment the fetch returned and leaves the
+SVID; `renewalTime` is the source's formula. -/
 theorem rotation_rules_as_source :
     (∀ s : RN, (arm s).wakeAt = s.now + min Kit.Generated.C19.wakeCapNs (s.renewAt - s.now)) ∧
     (∀ s : RN, s.mode = .waiting → s.now < s.renewAt → wake s = arm s) ∧
-    (∀ s : RN, s.mode = .waiting → s.renewAt ≤ s.now → (fetch s).2 = none →
-      (wake s).wakeAt = s.now + Kit.Generated.C19.retryNs ∧ (wake s).svid = s.svid ∧ (wake s).mode = .retrying) ∧
+    (∀ s : RN, s.mode = .waiting → s.renewAt ≤ s.now → wake s = issue s false) ∧
+    (∀ s : RN, s.reqInit = false → (complete s).2 = none →
+      (answerCore s).wakeAt = s.now + Kit.Generated.C19.retryNs ∧ (answerCore s).svid = s.svid ∧
+      (answerCore s).mode = .retrying) ∧
     (∀ nb na : Int, renewalTime nb na = nb + (na - nb).tdiv Kit.Generated.C19.renewalDivisor) := by
-  refine ⟨fun s => (arm_fields s).2.1, ?_, ?_, fun _ _ => rfl⟩
+  refine ⟨fun s => (arm_fields s).2.1, ?_, ?_, ?_, fun _ _ => rfl⟩
   · intro s hm hlt
-    rcases wake_cases s with ⟨h, _⟩ | ⟨h, _⟩ | ⟨_, _, hw⟩ | ⟨_, hle, _⟩ | ⟨_, hle, _⟩
-    · rw [hm] at h; cases h
+    rcases wake_cases s with ⟨h, _⟩ | ⟨h, _⟩ | ⟨_, _, hw⟩ | ⟨_, hle, _⟩
+    · rcases h with h | h <;> rw [hm] at h <;> cases h
     · rw [hm] at h; cases h
     · exact hw
     · omega
-    · omega
-  · intro s hm hle hnone
-    have fs := fetch_spec s
-    rcases wake_cases s with ⟨h, _⟩ | ⟨h, _⟩ | ⟨_, hlt, _⟩ | ⟨_, _, _, hw⟩ | ⟨_, _, c, hc, _⟩
-    · rw [hm] at h; cases h
+  · intro s hm hle
+    rcases wake_cases s with ⟨h, _⟩ | ⟨h, _⟩ | ⟨_, hlt, _⟩ | ⟨_, _, hw⟩
+    · rcases h with h | h <;> rw [hm] at h <;> cases h
     · rw [hm] at h; cases h
     · omega
-    · rw [hw]; exact ⟨rfl, fs.svid, rfl⟩
+    · exact hw
+  · intro s hi hnone
+    have cs := complete_spec s
+    rcases answerCore_cases s with ⟨_, hi', _⟩ | ⟨_, _, hw⟩ | ⟨c, hc, _⟩
+    · rw [hi] at hi'; cases hi'
+    · rw [hw]; exact ⟨rfl, cs.svid, rfl⟩
     · rw [hnone] at hc; cases hc
 
 /-- **No deadlock, whatever the order of first calls** (repaired code).  From every reachable state
@@ -363,101 +369,138 @@ theorem renew_run_reach (dirOn : Bool) (a0 : Nat) (script : List Reply) (t0 : In
   · exact runActs_reach acts _ .start hok t ht
 
 /-! ## renewal automaton (fake clock; every issuer script, every validity window, every sequence of
-clock advances and trust-anchor changes) -/
+clock advances, trust-anchor changes and — since a fetch takes time — moments at which the issuer
+answers) -/
 
 /-- A concrete run used for the non-vacuity examples: 1 h certificate, then a failure, then success;
-with a write directory. -/
+with a write directory; the issuer takes 2 s to answer the first renewal request. -/
 def exScript : List Reply := [.ok 0 3600000000000, .fail, .ok 1800000000000 5400000000000]
-def ex0 : RN := start true 7 exScript 0
-def ex1 : RN := advance ex0 1800000000000      -- half-life reached: request, fails
-def ex2 : RN := advance ex1 10000000000        -- 10 s later: retry, succeeds
+def ex0 : RN := answer (start true 7 exScript 0)                 -- initial fetch answered at once
+def ex1a : RN := advance ex0 1800000000000                       -- half-life reached: request in flight
+def ex1 : RN := answer (advance ex1a 2000000000)                 -- … answered 2 s later: failure
+def ex2a : RN := advance ex1 10000000000                         -- 10 s after the failure: retry in flight
+def ex2 : RN := answer ex2a                                      -- succeeds
 
-theorem ex0_reach : RReach true 7 exScript 0 ex0 := .start
-theorem ex1_reach : RReach true 7 exScript 0 ex1 := .adv _ (by decide) ex0_reach
-theorem ex2_reach : RReach true 7 exScript 0 ex2 := .adv _ (by decide) ex1_reach
+theorem ex0_reach : RReach true 7 exScript 0 ex0 := .ans .start
+theorem ex1a_reach : RReach true 7 exScript 0 ex1a := .adv _ (by decide) ex0_reach
+theorem ex1_reach : RReach true 7 exScript 0 ex1 := .ans (.adv _ (by decide) ex1a_reach)
+theorem ex2_reach : RReach true 7 exScript 0 ex2 := .ans (.adv _ (by decide) ex1_reach)
 
 /-- **The SVID served is the most recently fetched good one** (renewal automaton): in every
-reachable state the token of `currentSVID` is the newest successful entry of the request log. -/
+reachable state — also while a request is in flight — the token of `currentSVID` is the newest
+successful entry of the request log. -/
 theorem served_is_latest_good {dirOn : Bool} {a0 : Nat} {script : List Reply} {t0 : Int} {s : RN}
     (h : RReach dirOn a0 script t0 s) : s.svid.map (·.tok) = lastGood s.log :=
   (rinv h).1.data.served
 
-example : ex2.svid.map (·.tok) = some 2 ∧ ex1.svid.map (·.tok) = some 0 := by decide
+example : ex2.svid.map (·.tok) = some 2 ∧ ex1.svid.map (·.tok) = some 0 ∧ ex1a.svid.map (·.tok) = some 0 := by
+  decide
+
+/-- **While a request is in flight nothing changes but the clock**: the rotation goroutine is inside
+`requestSVIDFn`; however far the clock advances before the issuer answers, the served SVID, the log,
+the published files and the outstanding request stay as they are (and, by
+`renewal_in_flight_does_not_block_readers`, nobody holds the lock, so `GetX509SVID` keeps returning
+that SVID without blocking). -/
+theorem in_flight_only_the_clock_moves {s : RN} (hm : s.mode = .inflight) (d : Int) :
+    advance s d = { s with now := s.now + d } := by
+  have : RN.due { s with now := s.now + d } = false := not_due_of_mode (Or.inl hm)
+  show settle 3 { s with now := s.now + d } = _
+  simp only [settle, this]
+  rfl
+
+example : ex1a.mode = .inflight ∧ (advance ex1a 999000000000).svid = ex1a.svid := by decide
 
 /-- **Renewal no later than one minute after half-life.**  In every reachable state that waits on a
 certificate: (i) the clock has not reached the renewal time (`now < wakeAt ≤ renewAt`: whenever the
 clock is at/after half-life and the due timers have fired, the request has been issued), and wakes are
 armed at most a minute apart; (ii) the clock advance during which half-life is reached issues the
-request at that very wake, stamped with that clock value and carrying a fresh key; if the wake is at
-most a minute late — in particular if the clock moves in steps of at most a minute — the request is
-stamped no later than one minute after half-life. -/
+request at that very wake: it is then in flight, stamped with that clock value, carrying a fresh key;
+if the wake is at most a minute late — in particular if the clock moves in steps of at most a minute —
+the request is stamped no later than one minute after half-life. -/
 theorem renew_within_minute {dirOn : Bool} {a0 : Nat} {script : List Reply} {t0 : Int} {s : RN}
     (h : RReach dirOn a0 script t0 s) (hm : s.mode = .waiting) :
     (s.now < s.wakeAt ∧ s.wakeAt ≤ s.renewAt ∧ s.wakeAt ≤ s.armedAt + minute) ∧
     ∀ d, 0 < d → s.renewAt ≤ s.now + d →
-      ∃ pre r, (advance s d).log = pre ++ r :: s.log ∧ r.stamp = s.now + d ∧ r.tok = s.nextTok ∧
-        (∀ q ∈ pre, q.stamp = s.now + d) ∧
-        (s.now + d ≤ s.wakeAt + minute → r.stamp ≤ s.renewAt + minute) ∧
-        (d ≤ minute → r.stamp < s.renewAt + minute) := by
+      (advance s d).mode = .inflight ∧ (advance s d).reqAt = s.now + d ∧ (advance s d).reqTok = s.nextTok ∧
+        (advance s d).svid = s.svid ∧
+        (s.now + d ≤ s.wakeAt + minute → (advance s d).reqAt ≤ s.renewAt + minute) ∧
+        (d ≤ minute → (advance s d).reqAt < s.renewAt + minute) := by
   obtain ⟨hl, hdue⟩ := rinv h
   obtain ⟨hw1, hw2, hw3⟩ := hl.waiting hm
-  have hnow : s.now < s.wakeAt := by
-    cases hlt : decide (s.now < s.wakeAt)
-    · have : s.due = true := (due_iff s).mpr ⟨by rw [hm]; simp, by simpa using hlt⟩
-      rw [this] at hdue; cases hdue
-    · simpa using hlt
+  have hnow := not_due_lt hdue (Or.inl hm)
   refine ⟨⟨hnow, hw1, hw2⟩, ?_⟩
   intro d hd hreach
+  have hm' : ({ s with now := s.now + d } : RN).mode = .waiting := hm
   have hdue' : RN.due { s with now := s.now + d } = true :=
-    (due_iff _).mpr ⟨by show s.mode ≠ .dead; rw [hm]; simp, by show s.wakeAt ≤ s.now + d; omega⟩
-  obtain ⟨r, hr, hstamp, htok, _⟩ := wake_fetches (s := { s with now := s.now + d }) hm hreach
-  obtain ⟨hn, pre, hlog, hpre⟩ := settle_log (2 * s.script.length + 2) (wake { s with now := s.now + d })
-  have hadv : advance s d = settle (2 * s.script.length + 2) (wake { s with now := s.now + d }) := by
-    show settle (2 * s.script.length + 2 + 1) { s with now := s.now + d } = _
-    simp only [settle, hdue', if_true]
-  refine ⟨pre, r, ?_, hstamp, htok, ?_, ?_, ?_⟩
-  · rw [hadv, hlog, hr]
-  · intro q hq; rw [hpre q hq, wake_now]
-  · intro hlate; rw [hstamp]; show s.now + d ≤ s.renewAt + minute; omega
-  · intro hsmall; rw [hstamp]; show s.now + d < s.renewAt + minute; omega
+    (due_iff _).mpr ⟨Or.inl hm', by show s.wakeAt ≤ s.now + d; omega⟩
+  have hwake : wake { s with now := s.now + d } = issue { s with now := s.now + d } false := by
+    rcases wake_cases { s with now := s.now + d } with ⟨h1, _⟩ | ⟨h1, _⟩ | ⟨_, hlt, _⟩ | ⟨_, _, hw⟩
+    · rcases h1 with h1 | h1 <;> rw [hm'] at h1 <;> cases h1
+    · rw [hm'] at h1; cases h1
+    · have : s.now + d < s.renewAt := hlt
+      omega
+    · exact hw
+  have hnd : RN.due (issue { s with now := s.now + d } false) = false :=
+    not_due_of_mode (Or.inl (issue_fields _ _).1)
+  have hadv : advance s d = issue { s with now := s.now + d } false := by
+    show settle 3 { s with now := s.now + d } = _
+    simp only [settle, hdue', if_true, hwake, hnd]
+    rfl
+  rw [hadv]
+  refine ⟨rfl, rfl, rfl, rfl, ?_, ?_⟩
+  · intro hlate; show s.now + d ≤ s.renewAt + minute; omega
+  · intro hsmall; show s.now + d < s.renewAt + minute; omega
 
-example : ex0.mode = .waiting ∧ ex0.renewAt ≤ ex0.now + 1800000000000 ∧ ex1.log.length = 2 := by decide
+example : ex0.mode = .waiting ∧ ex0.renewAt ≤ ex0.now + 1800000000000 ∧ ex1a.reqAt = 1800000000000 := by decide
 
-/-- **Renewal is requested within `δ` of half-life — over whole histories.**  Let the clock be advanced
-by ANY sequence of steps none of which overshoots by more than `δ` (each step is at most `δ` long, or
-ends at most `δ` after the deadline of the armed timer; `δ = 0` = the clock is advanced exactly to the
-wake times), with any issuer script and trust-anchor changes in between (`RReachD δ`).  Then
-(A) every request `r2` that follows a successful request `r1` — i.e. the renewal of `r1`'s
-certificate — is stamped in `[dueAt r1, dueAt r1 + δ]`, where `dueAt r1 = max(half-life of the
-certificate, the time it was issued)`; and (B) the request exists as soon as it is due: in no
-reachable state is the newest request a success whose half-life the clock has reached. -/
+/-- **Renewal is requested within `δ` of half-life — over whole histories, with fetches that take
+time.**  Let the clock be advanced by ANY sequence of steps none of which, while the loop waits on its
+timer, overshoots by more than `δ` (each such step is at most `δ` long, or ends at most `δ` after the
+deadline of the armed timer; `δ = 0` = the clock is advanced exactly to the wake times); advances while
+a request is in flight and the moments at which the issuer answers are arbitrary; any issuer script
+and trust-anchor changes (`RReachD δ`).  Then (A) every answered request `r2` that follows a successful
+request `r1` — i.e. the renewal of `r1`'s certificate — was ISSUED (`stamp`) in
+`[dueAt r1, dueAt r1 + δ]`, where `dueAt r1 = max(half-life of the certificate, the time its answer was
+processed)`; (B) the request exists as soon as it is due: in no reachable state is the loop waiting on
+a certificate whose half-life the clock has reached; (C) the same bound holds for the request that is
+still in flight. -/
 theorem renewal_within_delta_of_half_life {δ : Int} (hδ : 0 ≤ δ) {dirOn : Bool} {a0 : Nat}
     {script : List Reply} {t0 : Int} {s : RN} (h : RReachD δ dirOn a0 script t0 s) :
     (∀ pre r2 r1 rest, s.log = pre ++ r2 :: r1 :: rest → r1.good = true →
       dueAt r1 ≤ r2.stamp ∧ r2.stamp ≤ dueAt r1 + δ) ∧
-    (∀ r rest, s.log = r :: rest → r.good = true → s.now < r.half) := by
+    (∀ r rest, s.log = r :: rest → r.good = true → s.mode = .waiting → s.now < r.half) ∧
+    (∀ r rest, s.log = r :: rest → r.good = true → s.mode = .inflight →
+      dueAt r ≤ s.reqAt ∧ s.reqAt ≤ dueAt r + δ) := by
   have ht := tinv_reach hδ h
   obtain ⟨hl, hdue⟩ := rinv h.toRReach
-  constructor
+  refine ⟨?_, ?_, ht.flightDue⟩
   · intro pre r2 r1 rest hlog hg
     have := ht.pairs
     rw [hlog] at this
     exact pairOK_at pre r2 r1 rest this hg
-  · intro r rest hlog hg
-    obtain ⟨hren, hmode⟩ := ht.head r rest hlog hg
-    have hlt := not_due_lt hdue (by rw [hmode]; simp)
+  · intro r rest hlog hg hmode
+    obtain ⟨hren, _⟩ := ht.head r rest hlog hg
+    have hlt := not_due_lt hdue (Or.inl hmode)
     obtain ⟨hw, _, _⟩ := hl.waiting hmode
     omega
 
+/-- In every reachable state the newest answered request, if good, is being waited on or renewed:
+the loop is never retrying or dead on top of a good certificate. -/
+theorem good_head_waiting_or_in_flight {δ : Int} (hδ : 0 ≤ δ) {dirOn : Bool} {a0 : Nat}
+    {script : List Reply} {t0 : Int} {s : RN} (h : RReachD δ dirOn a0 script t0 s)
+    {r : Req} {rest : List Req} (hlog : s.log = r :: rest) (hg : r.good = true) :
+    s.mode = .waiting ∨ s.mode = .inflight :=
+  ((tinv_reach hδ h).head r rest hlog hg).2
+
 /-- **The statement's form**: a renewal request is issued no later than one minute after the
-certificate passes half of its validity.  For a certificate issued before its half-life, under the
-hypothesis of the previous theorem: the renewal request is stamped at or after half-life and at most
+certificate passes half of its validity.  For a certificate received before its half-life, under the
+hypothesis of the previous theorem: the renewal request is issued at or after half-life and at most
 `δ` after it — hence within `1 min + δ`, within one minute whenever `δ ≤ 1 min` (the clock is looked
-at at least once a minute), and exactly at half-life when `δ = 0`. -/
+at at least once a minute), and exactly at half-life when `δ = 0` — whatever the issuer's latency. -/
 theorem renew_no_later_than_minute_after_half_life {δ : Int} (hδ : 0 ≤ δ) {dirOn : Bool} {a0 : Nat}
     {script : List Reply} {t0 : Int} {s : RN} (h : RReachD δ dirOn a0 script t0 s)
     {pre : List Req} {r2 r1 : Req} {rest : List Req} (hlog : s.log = pre ++ r2 :: r1 :: rest)
-    (hg : r1.good = true) (hbefore : r1.stamp ≤ r1.half) :
+    (hg : r1.good = true) (hbefore : r1.answered ≤ r1.half) :
     r1.half ≤ r2.stamp ∧ r2.stamp ≤ r1.half + δ ∧ r2.stamp ≤ r1.half + minute + δ ∧
     (δ ≤ minute → r2.stamp ≤ r1.half + minute) ∧ (δ = 0 → r2.stamp = r1.half) := by
   obtain ⟨h1, h2⟩ := (renewal_within_delta_of_half_life hδ h).1 pre r2 r1 rest hlog hg
@@ -465,32 +508,32 @@ theorem renew_no_later_than_minute_after_half_life {δ : Int} (hδ : 0 ≤ δ) {
   simp only [dueAt] at h1 h2
   refine ⟨by omega, by omega, by omega, fun _ => by omega, fun _ => by omega⟩
 
-/-- Non-vacuity with `δ = 0`: a 100 s certificate; the clock is advanced exactly to the armed deadline
-(50 s = half-life, below the one-minute cap); the renewal request is stamped exactly there. -/
-def exD : RN := advance (start false 0 [.ok 0 100000000000, .ok 50000000000 150000000000] 0) 50000000000
-theorem exD_reach : RReachD 0 false 0 [.ok 0 100000000000, .ok 50000000000 150000000000] 0 exD :=
-  .adv _ (by decide) (Or.inr (by decide)) .start
-example : exD.log = [⟨50000000000, 1, true, 0, 100000000000⟩, ⟨0, 0, true, 0, 50000000000⟩] := by decide
+/-- Non-vacuity with `δ = 0` and a slow issuer: a 100 s certificate; the clock is advanced exactly to
+the armed deadline (50 s = half-life, below the one-minute cap); the renewal request goes out exactly
+there; the issuer answers 7 s later. -/
+def exDScript : List Reply := [.ok 0 100000000000, .ok 50000000000 150000000000]
+def exD : RN := answer (advance (advance (answer (start false 0 exDScript 0)) 50000000000) 7000000000)
+theorem exD_reach : RReachD 0 false 0 exDScript 0 exD :=
+  .ans (.adv _ (by decide) (by intro h; exact absurd h (by decide))
+    (.adv _ (by decide) (fun _ => Or.inr (by decide)) (.ans .start)))
+example : exD.log = [⟨50000000000, 1, true, 0, 100000000000, 57000000000⟩, ⟨0, 0, true, 0, 50000000000, 0⟩] := by
+  decide
 
 /-- **Failed renewals are retried every 10 s and do not disturb the served SVID.**  In every
-reachable state that waits for a retry: the newest request failed and the timer is armed for exactly
-10 s after it; a clock advance that stays before the deadline changes nothing but the clock; the
-advance that reaches it issues a new request at that wake (so exactly 10 s after the failure when
-the clock lands on the deadline). -/
+reachable state that waits for a retry: the newest answered request failed and the timer is armed for
+exactly 10 s after that failure was returned; a clock advance that stays before the deadline changes
+nothing but the clock; the advance that reaches it issues a new request at that wake (so exactly 10 s
+after the failure when the clock lands on the deadline), with a fresh key, the SVID untouched. -/
 theorem retry_every_10s_keeps_svid {dirOn : Bool} {a0 : Nat} {script : List Reply} {t0 : Int} {s : RN}
     (h : RReach dirOn a0 script t0 s) (hm : s.mode = .retrying) :
-    (∃ r rest, s.log = r :: rest ∧ r.good = false ∧ s.wakeAt = r.stamp + tenSec ∧ s.now < s.wakeAt) ∧
+    (∃ r rest, s.log = r :: rest ∧ r.good = false ∧ s.wakeAt = r.answered + tenSec ∧ s.now < s.wakeAt) ∧
     (∀ d, 0 < d → s.now + d < s.wakeAt → advance s d = { s with now := s.now + d }) ∧
     (∀ d, 0 < d → s.wakeAt ≤ s.now + d →
-      ∃ pre r, (advance s d).log = pre ++ r :: s.log ∧ r.stamp = s.now + d ∧ r.tok = s.nextTok ∧
-        ∀ q ∈ pre, q.stamp = s.now + d) := by
+      (advance s d).mode = .inflight ∧ (advance s d).reqAt = s.now + d ∧ (advance s d).reqTok = s.nextTok ∧
+      (advance s d).svid = s.svid ∧ (advance s d).log = s.log) := by
   obtain ⟨hl, hdue⟩ := rinv h
   obtain ⟨hw1, hw2, hw3, r0, rest, hlog0, hbad, hst⟩ := hl.retrying hm
-  have hnow : s.now < s.wakeAt := by
-    cases hlt : decide (s.now < s.wakeAt)
-    · have : s.due = true := (due_iff s).mpr ⟨by rw [hm]; simp, by simpa using hlt⟩
-      rw [this] at hdue; cases hdue
-    · simpa using hlt
+  have hnow := not_due_lt hdue (Or.inr hm)
   refine ⟨⟨r0, rest, hlog0, hbad, by rw [hst]; exact hw1, hnow⟩, ?_, ?_⟩
   · intro d _ hlt
     have hnd : RN.due { s with now := s.now + d } = false := by
@@ -499,69 +542,87 @@ theorem retry_every_10s_keeps_svid {dirOn : Bool} {a0 : Nat} {script : List Repl
       · have := ((due_iff _).mp hd).2
         have : s.wakeAt ≤ s.now + d := this
         omega
-    show settle (2 * s.script.length + 2 + 1) { s with now := s.now + d } = _
+    show settle 3 { s with now := s.now + d } = _
     simp only [settle, hnd]
     rfl
   · intro d hd hreach
     have hm' : ({ s with now := s.now + d } : RN).mode = .retrying := hm
     have hdue' : RN.due { s with now := s.now + d } = true :=
-      (due_iff _).mpr ⟨by rw [hm']; simp, hreach⟩
+      (due_iff _).mpr ⟨Or.inr hm', hreach⟩
     -- the 10 s timer fires: `continue` re-arms with a non-positive duration, which fires at once
     have hwake1 : wake { s with now := s.now + d } = arm { s with now := s.now + d } := by
-      rcases wake_cases { s with now := s.now + d } with ⟨h1, _⟩ | ⟨_, hw⟩ | ⟨h1, _⟩ | ⟨h1, _⟩ | ⟨h1, _⟩
-      · rw [hm'] at h1; cases h1
+      rcases wake_cases { s with now := s.now + d } with ⟨h1, _⟩ | ⟨_, hw⟩ | ⟨h1, _⟩ | ⟨h1, _⟩
+      · rcases h1 with h1 | h1 <;> rw [hm'] at h1 <;> cases h1
       · exact hw
       · rw [hm'] at h1; cases h1
       · rw [hm'] at h1; cases h1
-      · rw [hm'] at h1; cases h1
-    obtain ⟨a1, a2, a3, a4, a5, _, a7, a8, _, _, a11, _⟩ := arm_fields { s with now := s.now + d }
+    obtain ⟨a1, a2, _, a4, a5, a6, a7, a8, _⟩ := arm_fields { s with now := s.now + d }
     have hmin := minute_pos
     have hdue2 : RN.due (arm { s with now := s.now + d }) = true := by
-      refine (due_iff _).mpr ⟨by rw [a1]; simp, ?_⟩
+      refine (due_iff _).mpr ⟨Or.inl a1, ?_⟩
       rw [a2, a4]
       show s.now + d + min minute (s.renewAt - (s.now + d)) ≤ s.now + d
       omega
-    have hren : (arm { s with now := s.now + d }).renewAt ≤ (arm { s with now := s.now + d }).now := by
-      rw [a5, a4]; show s.renewAt ≤ s.now + d; omega
-    obtain ⟨r, hr, hstamp, htok, _⟩ := wake_fetches a1 hren
-    obtain ⟨hn, pre, hlog, hpre⟩ := settle_log (2 * s.script.length + 1) (wake (arm { s with now := s.now + d }))
-    have hadv : advance s d = settle (2 * s.script.length + 1) (wake (arm { s with now := s.now + d })) := by
-      show settle (2 * s.script.length + 1 + 1 + 1) { s with now := s.now + d } = _
-      simp only [settle, hdue', if_true, hwake1, hdue2]
-    refine ⟨pre, r, ?_, ?_, ?_, ?_⟩
-    · rw [hadv, hlog, hr, a7]
-    · rw [hstamp, a4]
-    · rw [htok, a8]
-    · intro q hq; rw [hpre q hq, wake_now, a4]
+    have hwake2 : wake (arm { s with now := s.now + d }) = issue (arm { s with now := s.now + d }) false := by
+      rcases wake_cases (arm { s with now := s.now + d }) with ⟨h1, _⟩ | ⟨h1, _⟩ | ⟨_, hlt, _⟩ | ⟨_, _, hw⟩
+      · rcases h1 with h1 | h1 <;> rw [a1] at h1 <;> cases h1
+      · rw [a1] at h1; cases h1
+      · rw [a4, a5] at hlt
+        have : s.now + d < s.renewAt := hlt
+        omega
+      · exact hw
+    have hnd : RN.due (issue (arm { s with now := s.now + d }) false) = false :=
+      not_due_of_mode (Or.inl (issue_fields _ _).1)
+    have hadv : advance s d = issue (arm { s with now := s.now + d }) false := by
+      show settle 3 { s with now := s.now + d } = _
+      simp only [settle, hdue', if_true, hwake1, hdue2, hwake2, hnd]
+      rfl
+    rw [hadv]
+    obtain ⟨i1, i2, i3, _, _, _, i7, i8, _⟩ := issue_fields (arm { s with now := s.now + d }) false
+    exact ⟨i1, by rw [i3, a4], by rw [i2, a8], by rw [i7, a6], by rw [i8, a7]⟩
 
-example : ex1.mode = .retrying ∧ ex1.wakeAt = 1810000000000 ∧ (advance ex1 5000000000).log = ex1.log ∧
-    ex2.log.length = 3 := by decide
+example : ex1.mode = .retrying ∧ ex1.wakeAt = 1812000000000 ∧ (advance ex1 5000000000).log = ex1.log ∧
+    ex2a.mode = .inflight ∧ ex2a.reqAt = 1812000000000 ∧ ex2.log.length = 3 := by decide
 
-/-- Requests that all fail leave the served SVID untouched, whatever the clock does. -/
-theorem failed_fetches_keep_svid {dirOn : Bool} {a0 : Nat} {script : List Reply} {t0 : Int} {s : RN}
-    (h : RReach dirOn a0 script t0 s) {d : Int} (hd : 0 < d) {pre : List Req}
-    (hlog : (advance s d).log = pre ++ s.log) (hbad : ∀ q ∈ pre, q.good = false) :
-    (advance s d).svid.map (·.tok) = s.svid.map (·.tok) := by
-  rw [served_is_latest_good h, served_is_latest_good (.adv d hd h), hlog, lastGood_append_bad pre s.log hbad]
+/-- An answer that is a failure leaves the served SVID untouched; so does every clock advance and every
+trust-anchor change: `currentSVID` changes only when a request is answered successfully. -/
+theorem failed_fetches_keep_svid (s : RN) :
+    ((complete s).2 = none → (answer s).svid = s.svid) ∧
+    (∀ d, (advance s d).svid = s.svid) ∧ (∀ a, (setAnchors s a).svid = s.svid) := by
+  refine ⟨?_, fun d => (settle_frame _ _).2.2.1, fun _ => rfl⟩
+  intro hnone
+  simp only [answer]
+  split
+  · show (settle _ (answerCore s)).svid = s.svid
+    rw [(settle_frame _ _).2.2.1]
+    have cs := complete_spec s
+    rcases answerCore_cases s with ⟨_, _, hw⟩ | ⟨_, _, hw⟩ | ⟨c, hc, _⟩
+    · rw [hw]; exact cs.svid
+    · rw [hw]; exact cs.svid
+    · rw [hnone] at hc; cases hc
+  · rfl
 
 /-- **Every fetch uses a fresh key, published with its chain and the current trust anchors as one
-file set.**  The k-th request carries key k (so keys are pairwise distinct); with a write directory
-there is exactly one `dir.Write` per *successful* fetch, in order, and its file set is
-`{key k, chain of k, anchors current at request k}` — never a key with another fetch's chain; a
-failed fetch publishes nothing; without a write directory nothing is written. -/
+file set.**  The k-th request carries key k (so keys are pairwise distinct — also the one in flight:
+`reqTok = |log|`); with a write directory there is exactly one `dir.Write` per *successful* fetch, in
+order, and its file set is `{key k, chain of k, anchors current when the fetch returned}` — never a
+key with another fetch's chain; a failed fetch publishes nothing; without a write directory nothing is
+written. -/
 theorem fetch_fresh_key_one_fileset {dirOn : Bool} {a0 : Nat} {script : List Reply} {t0 : Int} {s : RN}
     (h : RReach dirOn a0 script t0 s) :
     s.log.map (·.tok) = (List.range s.log.length).reverse ∧ (s.log.map (·.tok)).Nodup ∧
+    (s.mode = .inflight → s.reqTok = s.log.length) ∧
     s.pub = (if s.dirOn then (s.log.filter (·.good)).map fileSetOf else []) ∧
     ∀ f ∈ s.pub, f.key = f.chain := by
   obtain ⟨hl, _⟩ := rinv h
-  have hlen : s.log.length = s.nextTok := by
+  have hlen : s.log.length = logN s := by
     have := congrArg List.length hl.data.toks
     simpa using this
-  refine ⟨by rw [hlen]; exact hl.data.toks, ?_, hl.data.pubs, ?_⟩
+  refine ⟨by rw [hlen]; exact hl.data.toks, ?_, ?_, hl.data.pubs, ?_⟩
   · rw [hl.data.toks]
     simp only [List.Nodup, List.pairwise_reverse]
-    exact (List.nodup_range (n := s.nextTok)).imp (fun h => Ne.symm h)
+    exact (List.nodup_range (n := logN s)).imp (fun h => Ne.symm h)
+  · intro hm; rw [hlen]; simp [logN, hm]
   · intro f hf
     rw [hl.data.pubs] at hf
     split at hf
